@@ -809,6 +809,12 @@ pub fn run_item(prop: &str, tier: &str, idx: usize, only: Option<&Value>) -> MRe
         let nworkers = specs.len();
         let cfg = ExecCfg { specs, mode, root_out: out(ROOT_IN), horizon: 300_000, timeout_s: 60, attack_procfs: prop_is_c06 };
         let eo = execute(&cfg, ch)?;
+        // An openat2 that the kernel aborted with EAGAIN on its own (something else on the machine renamed or mounted during
+        // the call; our own mutations happen while the worker is stopped) changes the library's syscall sequence. Such an
+        // execution is not a sample of the subject under the chosen schedule: it is repeated.
+        if !confirm && eo.events.iter().any(|e| e.name == "openat2" && e.rval == -(libc::EAGAIN as i64) && e.injected.is_none()) {
+            return mach("NOISE: kernel-initiated EAGAIN during this execution");
+        }
         let otext = (0..nworkers).map(|i| outcome_text(&w, &eo, i)).collect::<Vec<_>>().join(" || ");
         if ch.trace.len() < ch.forced_len() {
             eprintln!("SHORT EXECUTION in {}: {} of {} forced choices consumed; events={} timeout={} horizon={} outcome={} exit={:?} killed={:?} last_events={:?}", scen.name, ch.trace.len(), ch.forced_len(), eo.events.len(), eo.timeout, eo.horizon_hit, otext, eo.exit, eo.killed, eo.events.iter().rev().take(3).map(|e| e.brief()).collect::<Vec<_>>());
